@@ -696,7 +696,10 @@ pub fn check(bytes: &[u8], _ctx: &Ctx) -> Verdict {
             let ran = cli::run_cli(&args, if case.via_stdin { Some(&case.text) } else { None });
             let created = out_path.as_ref().map(|p| p.exists()).unwrap_or(false);
             if ran.timed_out {
-                Verdict::fail("harness/timeout", "the program did not finish within 60 s")
+                Verdict::fail(
+                    format!("C17/timeout/{}", name),
+                    format!("{}: the program did not finish within 60 s on an input with corruption '{}' | args {:?}", route, name, args),
+                )
             } else if ran.code == Some(0) {
                 Verdict::fail(
                     format!("C17/accepted/{}", name),
